@@ -98,6 +98,10 @@ type addrRecorder struct {
 	far    bool // a write/inc/dec outside the loader's own area was reported
 	areas  [][2]int
 	m      int
+	// a listener may look at the simulator while it is being told something: at the end of a cycle the
+	// counters and the warriors' own states must agree
+	sim   g.Simulator
+	audit string
 }
 
 func (a *addrRecorder) Report(r g.Report) {
@@ -114,6 +118,21 @@ func (a *addrRecorder) Report(r g.Report) {
 		}
 	case g.WarriorTaskPop, g.WarriorTaskPush:
 		a.addrs = append(a.addrs, int(r.Address))
+	case g.CycleEnd:
+		if a.sim != nil && a.audit == "" {
+			alive := 0
+			for i := 0; i < a.sim.WarriorCount(); i++ {
+				if w := a.sim.GetWarrior(i); w != nil && w.Alive() {
+					alive++
+					if len(w.Queue()) == 0 {
+						a.audit = fmt.Sprintf("at the CycleEnd report warrior %d is alive with an empty queue", i)
+					}
+				}
+			}
+			if alive != a.sim.WarriorLivingCount() {
+				a.audit = fmt.Sprintf("at the CycleEnd report WarriorLivingCount() is %d but %d warriors report alive", a.sim.WarriorLivingCount(), alive)
+			}
+		}
 	}
 }
 
@@ -183,6 +202,9 @@ func runC04(c *Ctx) {
 			c.Inc("melees_with_more_than_128_warriors")
 		}
 		rec := &addrRecorder{m: m}
+		if nw <= 4 {
+			rec.sim = s
+		}
 		s.AddReporter(rec)
 		if m <= 4096 && r.Chance(1, 3) {
 			// the bundled recorder is part of the simulator as users see it: whatever the battle does (wrapping code,
@@ -267,6 +289,9 @@ func runC04(c *Ctx) {
 				return false
 			}
 			c.Inc("invariant_evaluations")
+			if d == "" && rec.audit != "" {
+				d = "seen by a listener: " + rec.audit
+			}
 			if d != "" {
 				c.Violate("C04:invariant", when+": "+d, k.describe())
 				return false
